@@ -320,6 +320,27 @@ def systematic_sources(basic):
         else:
             for form in ("1999", "2000", "2001", "2049", "2050"):
                 src([("PA", pa)], [(hm(off + 15), "-", "LMT", "1980"), (hm(off), "PA", "A%sT", form), (hm(off + 60), "PA", "B%sT")], "%s/range-edge/%s" % (h, form))
+        # (N) a policy whose rules all ended before the era that uses it, the two latest rules in the same month of its last
+        # year (either order in the file): the later one decides SAVE and LETTER of the whole era
+        for yx in (1990, 1998, 1999, 2005):
+            for rev in (False, True):
+                pn = [("Rule", "PN", 1985, yx - 1, "-", a[0], a[1], a[2], a[3], a[4]), ("Rule", "PN", 1985, yx - 1, "-", b[0], b[1], b[2], b[3], b[4]),
+                      ("Rule", "PN", yx, "only", "-", "Sep", "2", "2:00", "1:00", "D"), ("Rule", "PN", yx, "only", "-", "Sep", "23", "2:00", "0", "S")]
+                if rev:
+                    pn = pn[:2] + [pn[3], pn[2]]
+                if yx == 2005:
+                    src([("PA", pa), ("PN", pn)], [(hm(off + 7), "-", "LMT", "1980"), (hm(off), "PA", "A%sT", "2009"), (hm(off), "PN", "N%sT")],
+                        "%s/dead-policy-same-month-%d%s/after-era-change" % (h, yx, "-rev" if rev else ""))
+                else:
+                    src([("PN", pn)], [(hm(off + 7), "-", "LMT", "1980"), (hm(off), "PN", "N%sT")],
+                        "%s/dead-policy-same-month-%d%s" % (h, yx, "-rev" if rev else ""))
+        # (O) abbreviations of exactly six characters (the documented maximum) from each kind of FORMAT
+        src([("PA", pa)], [(hm(off + 7), "-", "LMT", "1980"), (hm(off), "PA", "ABCD%sT", "2009"), (hm(off), "1:00", "ABCDEF", "2012"),
+                           (hm(off), "PA", "AB/ABCDEF")], "%s/six-character-abbreviations" % h)
+        if not basic:
+            po = [("Rule", "PO", 1985, "max", "-", a[0], a[1], a[2], a[3], "DE"), ("Rule", "PO", 1985, "max", "-", b[0], b[1], b[2], b[3], "S")]
+            src([("PO", po)], [(hm(off + 7), "-", "LMT", "1980"), (hm(off), "PO", "ABC%sT", "2009 Jul 1"), (hm(off + 60), "PO", "%sWXYZ")],
+                "%s/six-character-abbreviations/long-letter" % h)
         # (D) UNTIL given as a weekday expression, including ones that resolve into the neighbouring month
         if not basic:
             for form in ("2009 Sep Sun>=28 2:00", "2009 Oct Sat<=2 2:00", "2009 Mar lastSun 1:00u", "2009 Jun Sun>=8 0:00", "2009 Nov Sun>=29 3:00s",
